@@ -788,8 +788,10 @@ def run(ck):
         ck.mc("EbdProtocol_MC", cfg_text=cfg("FairSpec", {}, 1, 2, 1, 8, extra="CONSTRAINT ChanBound\nPROPERTY Terminates\n"),
               workers=8, timeout=3000, label="MC:liveness Terminates")
     for consts, inv in (GUARDS[:2] if q else GUARDS):
-        r = ck.mc("EbdProtocol_MC", cfg_text=cfg("Spec", consts, 1, 2, 1, 8, extra=MC_PROPS), workers=4, timeout=1500,
-                  label=f"MC:guard {consts}", expect_ok=False)
+        # each guard run checks only the invariant it is meant to break (a broken variant may break several
+        # in the same state and TLC reports the first one listed)
+        r = ck.mc("EbdProtocol_MC", cfg_text=cfg("Spec", consts, 1, 2, 1, 8, extra=f"CONSTRAINT ChanBound\nINVARIANT {inv}\n"), workers=4,
+                  timeout=1500, label=f"MC:guard {consts}", expect_ok=False)
         if r.violated != inv:
             raise tlc.MachineryError(f"vacuity guard {consts}: expected TLC to violate {inv}, got {r.violated}")
     # 2. spec -> code
